@@ -38,16 +38,39 @@ def is_exact(x):
     return False
 
 
-class LB(SymVal):
-    __slots__ = ("v", "exact")
+def _bits_of(x):
+    if isinstance(x, LB):
+        return x.bits if x.exact else W
+    if isinstance(x, int) and 0 <= x <= MASK:
+        return x.bit_length()
+    return W
 
-    def __init__(self, v, exact=False):
-        self.v = z3.simplify(v) if False else v
+
+class LB(SymVal):
+    """`bits`: for exact values an upper bound on the bit length (value < 2^bits), so that a left shift that
+    cannot leave the 32-bit window keeps the value exact"""
+    __slots__ = ("v", "exact", "bits", "origin")
+
+    def __init__(self, v, exact=False, bits=W, origin=None):
+        self.v = v
         self.exact = exact
+        self.bits = min(bits, W) if exact else W
+        self.origin = origin        # (table string, index value): this value is ord(table[index]), index in range
 
     @staticmethod
-    def fresh(name, exact=False):
-        return LB(z3.BitVec(name, W), exact)
+    def fresh(name, exact=False, bits=W):
+        x = LB(z3.BitVec(name, W), exact, bits)
+        if exact and bits < W:
+            L.sink().add(z3.ULT(x.v, z3.BitVecVal(1 << bits, W)))
+        return x
+
+    def sym_truthy(self, ctx):
+        return self.v != 0
+
+    def as_int(self):
+        if not self.exact:
+            raise Undecided("low-bits mode: integer value of an inexact value")
+        return z3.BV2Int(self.v)
 
     def sym_type(self):
         return int
@@ -63,28 +86,94 @@ class LB(SymVal):
             if not isinstance(o, int) or o < 0:
                 raise Undecided("shift by a non-constant")
             if isinstance(op, ast.LShift):
-                return LB(self.v << o if o < W else z3.BitVecVal(0, W), False)
+                keeps = self.exact and self.bits + o <= W
+                return LB(self.v << o if o < W else z3.BitVecVal(0, W), keeps, self.bits + o)
             if not self.exact:
                 raise Undecided("low-bits mode: >> on a value that is not known to lie in [0, 2^32)")
-            return LB(z3.LShR(self.v, o) if o < W else z3.BitVecVal(0, W), True)
+            return LB(z3.LShR(self.v, o) if o < W else z3.BitVecVal(0, W), True, max(0, self.bits - o))
         a, b = (bv(o), self.v) if reflected else (self.v, bv(o))
         ea, eb = (is_exact(o), self.exact) if reflected else (self.exact, is_exact(o))
         if isinstance(op, ast.Add):
             return LB(a + b, False)
         if isinstance(op, ast.Sub):
             return LB(a - b, False)
+        ba, bb = (_bits_of(o), _bits_of(self)) if reflected else (_bits_of(self), _bits_of(o))
         if isinstance(op, ast.BitAnd):
-            return LB(a & b, ea or eb)          # x & m with 0 <= m < 2^32 is exactly (x mod 2^32) & m
+            # x & m with 0 <= m < 2^32 is exactly (x mod 2^32) & m
+            return LB(a & b, ea or eb, min(ba if ea else W, bb if eb else W))
         if isinstance(op, ast.BitOr):
-            return LB(a | b, ea and eb)
+            return LB(a | b, ea and eb, max(ba, bb))
         if isinstance(op, ast.BitXor):
-            return LB(a ^ b, ea and eb)
+            return LB(a ^ b, ea and eb, max(ba, bb))
         if isinstance(op, ast.Mult) and isinstance(o, int):
             return LB(a * b, False)
         raise Undecided("low-bits mode: operator " + type(op).__name__)
 
+    def _static_compare(self, op, o, reflected):
+        """comparison of a table character (origin known) with a constant, when every table entry agrees"""
+        if self.origin is None or not isinstance(o, int) or isinstance(o, bool):
+            return None
+        import operator
+        fn = {ast.Lt: operator.lt, ast.LtE: operator.le, ast.Gt: operator.gt, ast.GtE: operator.ge,
+              ast.Eq: operator.eq, ast.NotEq: operator.ne}.get(type(op))
+        if fn is None:
+            return None
+        res = {(fn(o, ord(ch)) if reflected else fn(ord(ch), o)) for ch in self.origin[0]}
+        return res.pop() if len(res) == 1 else None
+
     def sym_compare(self, ctx, op, other, reflected):
-        raise Undecided("low-bits mode: comparison")
+        o = simplify_native(other)
+        st = self._static_compare(op, o, reflected)
+        if st is not None:
+            return st
+        if not self.exact:
+            raise Undecided("low-bits mode: comparison of a value that is not known to lie in [0, 2^32)")
+        if isinstance(o, LB):
+            if not o.exact:
+                raise Undecided("low-bits mode: comparison with an inexact value")
+            ov = o.v
+        elif isinstance(o, int):
+            # exact values are non-negative and below 2^32
+            if o < 0 or o > MASK:
+                lt = o > MASK      # self < o ?
+                table = {ast.Lt: lt, ast.LtE: lt, ast.Gt: not lt, ast.GtE: not lt, ast.Eq: False, ast.NotEq: True}
+                if reflected:
+                    table = {ast.Lt: not lt, ast.LtE: not lt, ast.Gt: lt, ast.GtE: lt, ast.Eq: False, ast.NotEq: True}
+                return table[type(op)]
+            ov = z3.BitVecVal(o, W)
+        elif o is None:
+            return {ast.Eq: False, ast.NotEq: True, ast.Is: False, ast.IsNot: True}.get(type(op), NotImplemented)
+        else:
+            return NotImplemented
+        a, b = (ov, self.v) if reflected else (self.v, ov)
+        if isinstance(op, ast.Lt):
+            return z3.ULT(a, b)
+        if isinstance(op, ast.LtE):
+            return z3.ULE(a, b)
+        if isinstance(op, ast.Gt):
+            return z3.UGT(a, b)
+        if isinstance(op, ast.GtE):
+            return z3.UGE(a, b)
+        if isinstance(op, ast.Eq):
+            return a == b
+        if isinstance(op, ast.NotEq):
+            return a != b
+        return NotImplemented
+
+    def sym_eq(self, other):
+        o = simplify_native(other)
+        st = self._static_compare(ast.Eq(), o, False)
+        if st is not None:
+            return st
+        if isinstance(o, LB):
+            if self.exact and o.exact:
+                return self.v == o.v
+            raise Undecided("equality of inexact low-bits values")
+        if isinstance(o, int) and not isinstance(o, bool):
+            if not self.exact:
+                raise Undecided("equality of an inexact low-bits value")
+            return self.v == z3.BitVecVal(o, W) if 0 <= o <= MASK else False
+        return False
 
     def sym_getattr(self, ctx, name):
         if name == "to_bytes":
